@@ -562,10 +562,11 @@ class HTTPConnectionPool(ConnectionPool, RequestMethods):
         """
         Close all pooled connections and disable the pool.
         """
-        if self.pool is None:
-            return
         # Disable access to the pool
         old_pool, self.pool = self.pool, None
+        if old_pool is None:
+            # Already closed, possibly by a concurrent close().
+            return
 
         # Close all the HTTPConnections in the pool.
         _close_pool_connections(old_pool)
